@@ -124,8 +124,14 @@ def live_drops(ctx, body, pred):
             fn = t["func"]["fn"]
             if callee_matches(fn, r"core::mem::(take|replace)$"):
                 takes.append((bb, strip_refs(fl.operand_expr(t["args"][0]))))
+    # blocks from which the function can still return: a drop on a path that can only end in a panic / abort (the rejected
+    # future released before "attempted to push into a full ..." is raised) is not a drop on a normal path
+    returning = set()
+    for bb in range(body.n):
+        if body.term(bb)["k"] == "return":
+            returning |= _can_reach(body, bb)
     for bb in sorted(reach):
-        if body.is_cleanup(bb):
+        if body.is_cleanup(bb) or bb not in returning:
             continue
         t = body.term(bb)
         if t["k"] == "drop":
@@ -138,6 +144,8 @@ def live_drops(ctx, body, pred):
             # take-aware: the place was emptied by mem::take on every path (dominating take, no store between)
             pe = strip_refs(fl.place_expr(t["place"]))
             if any(body.dominates(tb, bb) and te == pe and not _stored_between(body, fl, tb, bb, pe) for tb, te in takes):
+                continue
+            if not t["place"]["p"] and _free_on_every_path(ctx, body, fl, bb, t["place"], ty, pred):
                 continue
             out.append((bb, t["place"], "drop"))
         elif t["k"] == "call" and t["func"]["k"] == "const" and "fn" in t["func"]:
@@ -154,6 +162,57 @@ def live_drops(ctx, body, pred):
                 if owns(ctx.facts, inner, pred) or releases_mu:
                     out.append((bb, a.get("place"), fn["def"].split("::")[-1]))
     return out
+
+
+def _free_on_every_path(ctx, body, fl, bb, place, ty, pred):
+    """The drop of local `place` at block bb sits behind a join; decide per feasible path: since its latest definition on the path
+    the local was moved out whole (the drop is then a no-op -- the value now lives where it was moved to), or the variant
+    knowledge of the path says that what is left owns nothing satisfying pred (`Poll::Pending`, `None`)."""
+    from lib_flow import sensitive_paths
+    l = place["l"]
+    ps = place_str(place)
+    n = 0
+    try:
+        for kind, path, know in sensitive_paths(body, fl, 2):
+            for i, x in enumerate(path):
+                if x != bb:
+                    continue
+                n += 1
+                # latest definition of the local before this visit
+                d = -1
+                moved = False
+                for j in range(i):
+                    blk = path[j]
+                    for s_ in body.stmts(blk):
+                        if s_["k"] != "assign":
+                            continue
+                        if s_["place"]["l"] == l and not s_["place"]["p"]:
+                            d, moved = j, False
+                        rv = s_["rv"]
+                        ops = []
+                        if rv["k"] in ("use", "cast", "repeat"):
+                            ops = [rv["op"]]
+                        elif rv["k"] == "aggregate":
+                            ops = rv["ops"]
+                        for o in ops:
+                            if o["k"] == "move" and o["place"]["l"] == l and not o["place"]["p"]:
+                                moved = True
+                    t_ = body.term(blk)
+                    if t_["k"] == "call":
+                        for a in t_["args"]:
+                            if a["k"] == "move" and a["place"]["l"] == l and not a["place"]["p"]:
+                                moved = True
+                        if t_["dest"]["l"] == l and not t_["dest"]["p"] and j + 1 <= i:
+                            d, moved = j, False
+                if moved:
+                    continue
+                kn = know[i] if i < len(know) else {}
+                if payload_free(ctx.facts, frozenset(kn.items()), ps, ty, pred):
+                    continue
+                return False
+    except RuntimeError:
+        return False
+    return n > 0
 
 
 def _stored_between(body, fl, a, b, pe):
